@@ -157,8 +157,7 @@ def dictionary(scn):
                     words.update({v, (v + 1) % (1 << 256), (v - 1) % (1 << 256)})
                 pc += n
             pc += 1
-        if a != scn["this"]:
-            words.update({a, a | (1 << 160), a | (0xDEAD << 200)})
+        words.update({a, a | (1 << 160), a | (0xDEAD << 200)})
     words.update({0xC0FFEE, 0xC0FFEE | (1 << 255)})
     return sorted(words)[:400]
 
